@@ -13,6 +13,7 @@ import fam_solver
 import fam_motor
 import fam_rel
 import fam_gear
+import fam_keys
 import oracle_solver as O
 
 RULE = ('correspondence = solver + motor + relations + gear families with random units; search = metamorphic pairs: every input quantity of a '
@@ -91,12 +92,14 @@ def search(pid, tier, seed, escalate, hints):
             if first is None or not first[3]:
                 continue
             sc['ops'] = sc['ops'] + [['reset'], ['setinit', sc['pos0'], sc['spd0']], ['run', first[1], first[2], first[3], first[4]]]
+        if i >= len(todo) and rng.random() < 0.5:
+            sc = fam_keys.enrich(rng, sc)           # gears with structural data: tooth forces and stresses are outputs too
         sc2 = walk(rng, copy.deepcopy(sc), cyc)
         sc2['load'] = load_reexpress(rng, sc['load'])
         for op in sc2['ops']:
             if op[0] == 'setload':
                 op[1] = load_reexpress(rng, op[1])
-        r1, r2 = scen.run_impl(sc), scen.run_impl(sc2)
+        r1, r2 = scen.run_impl(sc, keep_objects=True), scen.run_impl(sc2, keep_objects=True)
         k += 1
         if 'Timeout' in (r1['err'] or '') + (r2['err'] or ''):
             continue                    # the harness's own wall-clock limit, not an outcome of the code
@@ -123,6 +126,10 @@ def search(pid, tier, seed, escalate, hints):
         d = O.hist_equal(r1['rows'], r2['rows'], exact=False)
         if d:
             out.append(W('history', f'histories differ after re-expressing the inputs in other units: {d}'))
+        elif 'objects' in r1 and 'objects' in r2:
+            d = derived_equal(r1['objects'], r2['objects'])
+            if d:
+                out.append(W('derived', f'after re-expressing the inputs in other units: {d}'))
         if len([w for w in out if w['cls'] != 'D5']) >= 5:
             break
     # constructors and relations: the same declaration history with re-expressed angles / lengths
@@ -162,6 +169,54 @@ def search(pid, tier, seed, escalate, hints):
         if len([w for w in out if w['cls'] != 'D5']) >= 5:
             break
     return out, k
+
+
+FS = {'tangential force': 'Force', 'bending stress': 'Stress', 'contact stress': 'Stress'}
+
+
+def derived_equal(o1, o2):
+    """the outputs derived from the histories: recorded tooth forces and stresses, and a snapshot between two instants (default units)"""
+    (pt1, els1, _), (pt2, els2, _) = o1, o2
+    for e1, e2 in zip(els1, els2):
+        for key, kind in FS.items():
+            a, b = e1.time_variables.get(key), e2.time_variables.get(key)
+            if (a is None) != (b is None):
+                return f'{e1.name} records {key!r} for one unit choice only'
+            if a is None:
+                continue
+            if len(a) != len(b):
+                return f'{e1.name} {key}: {len(a)} vs {len(b)} samples'
+            for j, (x, y) in enumerate(zip(a, b)):
+                if not (hasattr(x, 'value') and hasattr(y, 'value')):
+                    if type(x) is not type(y):
+                        return f'{e1.name} {key} sample {j}: {x!r} vs {y!r}'
+                    continue
+                sx, sy = x.value * S.ffactor(kind, x.unit), y.value * S.ffactor(kind, y.unit)
+                if not O.close(sx, sy, 1e-300, 1e-7):
+                    return f'{e1.name} {key} sample {j}: {sx!r} vs {sy!r} (SI)'
+    if len(pt1.time) >= 2 and len(pt1.time) == len(pt2.time):
+        j = len(pt1.time) // 2
+        t1 = pt1.time[j - 1] + (pt1.time[j] - pt1.time[j - 1]) * 0.5 if j >= 1 else pt1.time[0]
+        outs = []
+        for pt in (pt1, pt2):
+            try:
+                outs.append(pt.snapshot(target_time=t1, print_data=False))
+            except Exception as ex:  # noqa
+                outs.append(type(ex).__name__ + ': ' + str(ex)[:100])
+        if isinstance(outs[0], str) or isinstance(outs[1], str):
+            if isinstance(outs[0], str) != isinstance(outs[1], str):
+                return f'snapshot at {t1!r}: {outs[0] if isinstance(outs[0], str) else "returns"} vs {outs[1] if isinstance(outs[1], str) else "returns"}'
+            return None
+        d1, d2 = outs
+        if list(d1.columns) != list(d2.columns) or list(d1.index) != list(d2.index):
+            return f'snapshot at {t1!r}: different columns / rows'
+        for c_ in d1.columns:
+            for r_ in d1.index:
+                x, y = d1.loc[r_, c_], d2.loc[r_, c_]
+                if isinstance(x, (int, float)) and isinstance(y, (int, float)):
+                    if (x != x) != (y != y) or (x == x and not O.close(float(x), float(y), 1e-9 * max(abs(float(d1[c_].abs().max() or 0)), 1e-300), 1e-6)):
+                        return f'snapshot at {t1!r}: {r_} {c_}: {x!r} vs {y!r}'
+    return None
 
 
 def reach_witness(sc, r1, r2):
